@@ -112,8 +112,7 @@ def classify(checks, verdict, timed_out, rc, text):
 
 
 TAPE_RE = re.compile(
-    r"/// Check for `(\w+)`: \"(.*?)\"\n(?:///.*\n|\s*\n)*?#\[test\]\nfn (\w+)\(\) \{\n\s*let concrete_vals: Vec<Vec<u8>> = vec!\[(.*?)\n\s*\];",
-    re.S)
+    r"/// Check for `(\w+)`: \"([^\n]*)\"\n(?:///[^\n]*\n|[ \t]*\n)*#\[test\]\nfn (\w+)\(\) \{\n\s*let concrete_vals: Vec<Vec<u8>> = vec!\[\n((?:[^\n]*\n)*?)\s*\];")
 
 
 def parse_tapes(text):
@@ -149,11 +148,17 @@ def kani_cmd(engine, harness, target_dir, playback=False, extra_cbmc=(), only_co
 DEFAULT_UNWINDSET = {
     "incrate": [
         (r"bytes::BufMut>::put_slice", 3),
-        (r"::choose_and_send::", 4),
-        (r"::announce_to_down::", 4),
+        (r"::choose_and_send::", 3),
+        (r"::announce_to_down::", 3),
         (r"::broadcast::<", 4),
         (r"Foca::<.*>::handle_timer::", 4),
         (r"verif_stub_fill", 4),
+        (r"kit::LogRt as .*Runtime.*>::send_to", 38),
+        # rand's general-iterator sampling path is dead code for foca's exact-size
+        # ranges; CBMC cannot prune it syntactically. Bound 1 + unwinding assertion.
+        (r"coin_flipper::CoinFlipper", 1),
+        (r"::overflowing_pow", 1),
+        (r"IteratorRandom>::choose", 1),
     ],
 }
 
